@@ -34,7 +34,7 @@ def handle (cmd : String) (args : List String) : Option String :=
       let curc := cur.splitOn "/"
       let rs := (m.replace "." "/").splitOn "/"
       let show_ (l : List File) := "|".intercalate (l.map pathOfFile)
-      some s!"A={show_ (resolveRequire files rootc curc rs)} D={show_ (resolveDefine files rootc curc rs)} S={show_ (specCandidates files rs)}"
+      some s!"A={show_ (loadRequire files rootc curc rs).toList} D={show_ (loadDefine files rootc curc rs).toList} S={show_ (specCandidates files rs)}"
     | _, _, _ => some "bad-op"
   -- `modbest <roothex> <curhex> <referhex> <filehex>…` → what GetBestMatchReferFile may return
   | "modbest", rh :: ch :: mh :: fhs =>
@@ -45,7 +45,7 @@ def handle (cmd : String) (args : List String) : Option String :=
       let curc := cur.splitOn "/"
       let rs := refer.splitOn "/"
       let cands := if refer.contains '.' then files.filter (matchSuf rootc rs) else files.filter (matchPre rootc rs)
-      some ("B=" ++ "|".intercalate ((best rootc curc rs cands).map pathOfFile))
+      some ("B=" ++ "|".intercalate ((choose rootc curc rs cands).toList.map pathOfFile))
     | _, _, _ => some "bad-op"
   | _, _ => none
 end LuaHelper.ModOps
